@@ -122,6 +122,24 @@ func corpus(repo string) [][]byte {
 	} {
 		out = append(out, []byte(s))
 	}
+	// metadata keywords cut at every length, with every line ending, before and after an instruction
+	for _, kw := range []string{";name", ";author", ";strategy", ";assert", ";redcode-94"} {
+		for n := 1; n <= len(kw)+2; n++ {
+			t := kw + " x"
+			if n < len(t) {
+				t = t[:n]
+			}
+			for _, end := range []string{"\n", "\r\n", ""} {
+				out = append(out, []byte(t+end+"mov 0, 1\n"), []byte("mov 0, 1\n"+t+end))
+			}
+		}
+	}
+	// every prefix of a few small programs, with and without a final newline
+	for _, s := range []string{";name a\n;strategy b\nstart mov.i $0, $1 ; imp\n end start\n", "x equ 2\ni for x\n dat i, x\nrof\n;assert x\n"} {
+		for n := 0; n <= len(s); n++ {
+			out = append(out, []byte(s[:n]), []byte(s[:n]+"\n"))
+		}
+	}
 	return out
 }
 
